@@ -21,101 +21,367 @@ from pyplumio.structures.program_version import VersionInfo  # noqa: E402
 
 
 # ---------------------------------------------------------------- frames -----------------
-def _rand_data(rng, cls):
-    b = lambda: rng.choice([0, 1, 2, 7, 100, 254, 255, rng.randrange(256)])  # noqa: E731
-    n = cls.__name__
-    if n == "SetEcomaxParameterRequest":
-        return {"index": b(), "value": b()}
-    if n == "SetMixerParameterRequest":
-        return {"device_index": b(), "index": b(), "value": b()}
-    if n == "SetThermostatParameterRequest":
-        size = rng.choice([1, 2])
-        return {"index": rng.randrange(0, 100), "value": rng.randrange(256 ** size), "offset": rng.choice([0, 5, 12, 24]), "size": size}
-    if n == "EcomaxControlRequest":
-        return {"value": rng.choice([0, 1, b()])}
-    if n in ("EcomaxParametersRequest", "MixerParametersRequest", "ThermostatParametersRequest", "AlertsRequest"):
-        return {"count": b(), "start": b()}
-    if n == "ProgramVersionResponse":
-        return {"version": VersionInfo(software="%d.%d.%d" % (rng.randrange(65536), rng.randrange(65536), rng.randrange(65536)),
-                                       struct_tag=bytes([b(), b()]), struct_version=b(), device_id=bytes([b(), b()]),
-                                       processor_signature=bytes([b(), b(), b()]))}
-    if n == "DeviceAvailableResponse":
-        ipa = lambda: ".".join(str(rng.randrange(256)) for _ in range(4))  # noqa: E731
-        ssid = rng.choice(["", "a", "net", "Café", "Łódź-dom", "x" * rng.randint(1, 40)])
-        return {"network": NetworkInfo(
-            eth=EthernetParameters(ip=ipa(), netmask=ipa(), gateway=ipa(), status=rng.random() < 0.5),
-            wlan=WirelessParameters(ip=ipa(), netmask=ipa(), gateway=ipa(), status=rng.random() < 0.5, ssid=ssid,
-                                    encryption=rng.randrange(5), signal_quality=b()),
-            server_status=rng.random() < 0.5)}
-    raise KeyError(n)
+# A scenario is plain JSON (so a failure replays exactly):
+#   dict(t="frame_reuse", cls=<class name>, header=dict(recipient, sender, econet_type, econet_version),
+#        init=dict(message=<hex|None>, data=<jdata|None>), steps=[[op, arg?], ...])
+# jdata: {key: int | None | str | {"__sched__": [...]} | {"__net__": {...}} | {"__ver__": {...}}}
+# Two oracles: (1) the Lean frame-object model (Model/FrameObject.lean, driver op `obj`): what every
+# single step returned must be what the model returns; (2) a FRESH frame built from the final content.
+import json
+import struct
 
+from common import driver_batch
+from pyplumio import const as _const  # noqa: E402
+from pyplumio.const import EncryptionType, FrameType  # noqa: E402
+from pyplumio.exceptions import FrameDataError  # noqa: E402
+from pyplumio.frames import Request, Response  # noqa: E402
+
+# data keys: the library's constants -> the model's names
+KEYS = {getattr(_const, a): n for a, n in [
+    ("ATTR_COUNT", "count"), ("ATTR_START", "start"), ("ATTR_INDEX", "index"), ("ATTR_VALUE", "value"),
+    ("ATTR_DEVICE_INDEX", "device_index"), ("ATTR_OFFSET", "offset"), ("ATTR_SIZE", "size"), ("ATTR_TYPE", "type"),
+    ("ATTR_SWITCH", "switch"), ("ATTR_PARAMETER", "parameter"), ("ATTR_SCHEDULE", "schedule")]}
+KEYS["network"] = "network"
+KEYS["version"] = "version"
+MODEL_KEY = {v: k for k, v in KEYS.items()}   # model name -> key the library uses
 
 FRAME_CLASSES = [
     requests.SetEcomaxParameterRequest, requests.SetMixerParameterRequest, requests.SetThermostatParameterRequest,
     requests.EcomaxControlRequest, requests.EcomaxParametersRequest, requests.MixerParametersRequest,
     requests.ThermostatParametersRequest, requests.AlertsRequest, responses.ProgramVersionResponse,
-    responses.DeviceAvailableResponse,
+    responses.DeviceAvailableResponse, requests.SetScheduleRequest, requests.StartMasterRequest, requests.UIDRequest,
+    responses.SetEcomaxParameterResponse, responses.EcomaxControlResponse,
 ]
+_BY_NAME = {c.__name__: c for c in FRAME_CLASSES}
+# frame-type codes as the protocol numbers them (pinned against the source by C02.frame_codes_pinned)
+_PINNED = {"REQUEST_SET_ECOMAX_PARAMETER": 51, "REQUEST_SET_MIXER_PARAMETER": 52, "REQUEST_SET_THERMOSTAT_PARAMETER": 93,
+           "REQUEST_ECOMAX_CONTROL": 59, "REQUEST_ECOMAX_PARAMETERS": 49, "REQUEST_MIXER_PARAMETERS": 50,
+           "REQUEST_THERMOSTAT_PARAMETERS": 92, "REQUEST_ALERTS": 61, "RESPONSE_PROGRAM_VERSION": 192,
+           "RESPONSE_DEVICE_AVAILABLE": 176, "REQUEST_SET_SCHEDULE": 55, "REQUEST_START_MASTER": 25, "REQUEST_UID": 57,
+           "RESPONSE_SET_ECOMAX_PARAMETER": 179, "RESPONSE_ECOMAX_CONTROL": 187}
+
+
+def _code(cls):
+    return _PINNED[FrameType(cls.frame_type).name]
+
+
+def _rand_jdata(rng, cls, bad=False):
+    b = lambda: rng.choice([0, 1, 2, 7, 100, 254, 255, rng.randrange(256)])  # noqa: E731
+    n = cls.__name__
+    if n == "SetEcomaxParameterRequest":
+        d = {"index": b(), "value": b()}
+    elif n == "SetMixerParameterRequest":
+        d = {"device_index": b(), "index": b(), "value": b()}
+    elif n == "SetThermostatParameterRequest":
+        size = rng.choice([1, 2])
+        d = {"index": rng.randrange(0, 100), "value": rng.randrange(256 ** size), "offset": rng.choice([None, 0, 5, 12, 24]), "size": size}
+    elif n == "EcomaxControlRequest":
+        d = {"value": rng.choice([0, 1, b()])}
+    elif n in ("EcomaxParametersRequest", "MixerParametersRequest", "ThermostatParametersRequest", "AlertsRequest"):
+        d = {"count": b(), "start": b()}
+        if rng.random() < 0.2:
+            del d[rng.choice(["count", "start"])]      # the defaults of data.get
+    elif n == "SetScheduleRequest":
+        d = {"type": rng.choice(["heating", "water_heater", "mixer_3", "intake_summer"]), "switch": rng.randrange(2), "parameter": b(),
+             "schedule": {"__sched__": ["".join(rng.choice("01") for _ in range(48)) for _ in range(7)]}}
+    elif n == "ProgramVersionResponse":
+        d = {"version": {"__ver__": dict(a=rng.randrange(65536), b=rng.randrange(65536), c=rng.randrange(65536),
+                                         tag=bytes([b(), b()]).hex(), sv=b(), dev=bytes([b(), b()]).hex(),
+                                         sig=bytes([b(), b(), b()]).hex())}}
+    elif n == "DeviceAvailableResponse":
+        ipa = lambda: [rng.randrange(256) for _ in range(12)]  # noqa: E731
+        ssid = rng.choice(["", "a", "net", "Café", "Łódź-dom", "x" * rng.randint(1, 40)])
+        d = {"network": {"__net__": dict(eth=ipa(), est=rng.random() < 0.5, wlan=ipa(), wst=rng.random() < 0.5, ssid=ssid,
+                                         enc=rng.randrange(5), sig=b(), srv=rng.random() < 0.5)}}
+    else:
+        d = rng.choice([{}, {"value": b()}, {"index": b(), "value": b()}])   # ignored by the encoder
+    if bad and n in ("SetEcomaxParameterRequest", "SetMixerParameterRequest", "SetThermostatParameterRequest"):
+        k = rng.choice(["index", "value"])
+        if rng.random() < 0.5:
+            d[k] = rng.choice([256, 300, -1])       # FrameDataError (thermostat value: OverflowError)
+        else:
+            del d[k]                                # missing key
+    return d
+
+
+def _dotted(b):
+    return ".".join(str(x) for x in b)
+
+
+def _to_py(jd):
+    """JSON data -> the dict handed to the real frame"""
+    if jd is None:
+        return None
+    out = {}
+    for k, v in jd.items():
+        if isinstance(v, dict) and "__net__" in v:
+            c = v["__net__"]
+            e, w = c["eth"], c["wlan"]
+            v = NetworkInfo(
+                eth=EthernetParameters(ip=_dotted(e[0:4]), netmask=_dotted(e[4:8]), gateway=_dotted(e[8:12]), status=c["est"]),
+                wlan=WirelessParameters(ip=_dotted(w[0:4]), netmask=_dotted(w[4:8]), gateway=_dotted(w[8:12]), status=c["wst"],
+                                        ssid=c["ssid"], encryption=EncryptionType(c["enc"]), signal_quality=c["sig"]),
+                server_status=c["srv"])
+        elif isinstance(v, dict) and "__ver__" in v:
+            c = v["__ver__"]
+            v = VersionInfo(software=f"{c['a']}.{c['b']}.{c['c']}", struct_tag=bytes.fromhex(c["tag"]), struct_version=c["sv"],
+                            device_id=bytes.fromhex(c["dev"]), processor_signature=bytes.fromhex(c["sig"]))
+        elif isinstance(v, dict) and "__sched__" in v:
+            v = [[ch == "1" for ch in day] for day in v["__sched__"]]
+        out[MODEL_KEY.get(k, k)] = v
+    return out
+
+
+def _val_word(v):
+    import socket
+    if isinstance(v, bool):
+        return "i%d" % int(v)
+    if isinstance(v, int):
+        return "i%d" % int(v)
+    if v is None:
+        return "N"
+    if isinstance(v, str):
+        return "t" + v
+    if isinstance(v, list):
+        return "S" + ("-" if not v else "s" + "/".join("".join("1" if x else "0" for x in day) for day in v))
+    if isinstance(v, NetworkInfo):
+        a = lambda s: socket.inet_aton(s).hex()  # noqa: E731
+        return "n" + "|".join([a(v.eth.ip) + a(v.eth.netmask) + a(v.eth.gateway), str(int(v.eth.status)),
+                               a(v.wlan.ip) + a(v.wlan.netmask) + a(v.wlan.gateway), str(int(v.wlan.status)),
+                               hexs(v.wlan.ssid.encode()), str(int(v.wlan.encryption)), str(int(v.wlan.signal_quality)),
+                               str(int(v.server_status))])
+    if isinstance(v, VersionInfo):
+        return "v" + "|".join(v.software.split(".") + [hexs(v.struct_tag), str(v.struct_version), hexs(v.device_id),
+                                                       hexs(v.processor_signature)])
+    return "?" + type(v).__name__
+
+
+def _dict_word(d):
+    """a real data dict -> the model's dict word (keys sorted by the model's names)"""
+    if d is None:
+        return "_"
+    if not d:
+        return "{}"
+    return ";".join(k + "~" + w for k, w in sorted((KEYS.get(k, k), _val_word(v)) for k, v in d.items()))
+
+
+def _err_word(e, op):
+    if op == "gd":
+        return "E:decode"          # decode_message raised (class not compared)
+    if isinstance(e, FrameDataError):
+        return "E:frameData"
+    if isinstance(e, OverflowError):
+        return "E:overflow"
+    if isinstance(e, struct.error):
+        return "E:struct"
+    if isinstance(e, ValueError):
+        return "E:value"
+    if isinstance(e, TypeError):
+        return "E:type"
+    return "X:" + type(e).__name__
+
+
+def _sw_version():
+    from pyplumio._version import __version_tuple__
+    return ".".join(str(x if isinstance(x, int) else 0) for x in (tuple(__version_tuple__) + (0, 0, 0))[:3])
+
+
+def gen_scenario(rng):
+    cls = rng.choice(FRAME_CLASSES)
+    hdr = dict(recipient=int(rng.choice(list(DeviceType))), sender=int(rng.choice(list(DeviceType))),
+               econet_type=rng.choice([48, rng.randrange(256)]), econet_version=rng.choice([5, rng.randrange(256)]))
+    r = rng.random()
+    if r < 0.6:
+        init = dict(message=None, data=_rand_jdata(rng, cls))
+    elif r < 0.85:
+        init = dict(message=_some_message(rng, cls, hdr), data=None)
+    elif r < 0.93:
+        init = dict(message="", data=None)          # a legal empty payload is a payload, not "unset"
+    else:
+        init = dict(message=None, data=None)
+    steps = []
+    for _ in range(rng.randint(1, 5)):
+        op = rng.choice(["read", "read", "len", "read_message", "read_data", "set_new", "set_inplace", "set_ior", "set_message"])
+        if op in ("set_new", "set_inplace", "set_ior"):
+            steps.append([op, _rand_jdata(rng, cls, bad=rng.random() < 0.08)])
+        elif op == "set_message":
+            steps.append([op, rng.choice(["", _some_message(rng, cls, hdr), _some_message(rng, cls, hdr)])])
+        else:
+            steps.append([op])
+    return dict(t="frame_reuse", cls=cls.__name__, header=hdr, init=init, steps=steps)
+
+
+def _some_message(rng, cls, hdr):
+    m = bytes(cls(data=_to_py(_rand_jdata(rng, cls)), sender=DeviceType(hdr["sender"])).message)
+    if rng.random() < 0.4:
+        m += bytes(rng.randrange(256) for _ in range(rng.randint(1, 5)))
+    return m.hex()
+
+
+def _hdr_kwargs(h):
+    return dict(recipient=DeviceType(h["recipient"]), sender=DeviceType(h["sender"]), econet_type=h["econet_type"],
+                econet_version=h["econet_version"])
 
 
 def _observe(f):
-    b = f.bytes
-    return dict(bytes=b.hex(), length=len(f), header_len=int.from_bytes(b[1:3], "little"), message=bytes(f.message).hex())
+    try:
+        b = f.bytes
+        return dict(bytes=b.hex(), length=len(f), header_len=int.from_bytes(b[1:3], "little"), message=bytes(f.message).hex())
+    except Exception as e:  # noqa: BLE001
+        return dict(raised=_err_word(e, "b"))
+
+
+def run_scenario(sc):
+    """execute one scenario on the real classes -> (model request line, observed words, re-used obs, fresh obs)"""
+    cls = _BY_NAME[sc["cls"]]
+    h = sc["header"]
+    kw = _hdr_kwargs(h)
+    init = sc["init"]
+    ikw = dict(kw)
+    if init["message"] is not None:
+        ikw["message"] = bytearray.fromhex(init["message"])
+    if init["data"] is not None:
+        ikw["data"] = _to_py(init["data"])
+    f = cls(**ikw)
+    final = ("init", None)
+    words, ops = [], []
+
+    def do(op, fn):
+        ops.append(op)
+        try:
+            words.append(fn())
+        except Exception as e:  # noqa: BLE001
+            words.append(_err_word(e, op))
+
+    for st in sc["steps"]:
+        op = st[0]
+        if op == "read":
+            do("b", lambda: "b:" + hexs(f.bytes))
+        elif op == "len":
+            do("l", lambda: "l:%d" % len(f))
+        elif op == "read_message":
+            do("gm", lambda: "m:" + hexs(f.message))
+        elif op == "read_data":
+            do("gd", lambda: "d:" + _dict_word(f.data))
+        elif op == "set_new":
+            d = _to_py(st[1])
+
+            def setter(d=d):
+                f.data = d
+                return "ok"
+            do("sd=" + _dict_word(d), setter)
+            final = ("data", st[1])
+        elif op == "set_inplace":
+            d = _to_py(st[1])
+            got = []
+
+            def getter():
+                got.append(f.data)
+                return "d:" + _dict_word(got[0])
+            do("gd", getter)
+            if got:
+                cur = got[0]
+                cur.clear()
+                cur.update(d)
+
+                def setter(cur=cur):
+                    f.data = cur
+                    return "ok"
+                do("sd=" + _dict_word(d), setter)
+                final = ("data", st[1])
+        elif op == "set_ior":
+            d = _to_py(st[1])
+            got = []
+
+            def getter():
+                got.append(f.data)
+                return "d:" + _dict_word(got[0])
+            do("gd", getter)
+            if got:
+                merged = dict(got[0])
+                merged.update(d)
+
+                def setter(d=d):
+                    f.data |= d          # getter (cached by now), in-place update, setter with the same dict
+                    return "ok"
+                ops.append("gd")
+                words.append("d:" + _dict_word(got[0]))
+                do("sd=" + _dict_word(merged), setter)
+                final = ("pydata", merged)
+        elif op == "set_message":
+            m = bytes.fromhex(st[1])
+
+            def setter(m=m):
+                f.message = bytearray(m)
+                return "ok"
+            do("sm=" + hexs(m), setter)
+            final = ("message", m)
+    # closing observations, also part of the model comparison
+    do("gm", lambda: "m:" + hexs(f.message))
+    do("l", lambda: "l:%d" % len(f))
+    do("b", lambda: "b:" + hexs(f.bytes))
+    line = "obj %s %d %d %d %d %d %s %s %s" % (
+        _sw_version(), _code(cls), h["recipient"], h["sender"], h["econet_type"], h["econet_version"],
+        "_" if init["message"] is None else hexs(bytes.fromhex(init["message"])),
+        _dict_word(_to_py(init["data"])), " ".join(ops))
+    # fresh-object oracle
+    if final[0] == "data":
+        fresh = cls(data=_to_py(final[1]), **kw)
+    elif final[0] == "pydata":
+        fresh = cls(data=dict(final[1]), **kw)
+    elif final[0] == "message":
+        fresh = cls(message=bytearray(final[1]), **kw)
+    else:
+        fresh = cls(**ikw) if init["data"] is None else cls(**dict(ikw, data=_to_py(init["data"])))
+    return line, words, _observe(f), _observe(fresh)
+
+
+def check_plain_kinds(res):
+    """the model treats these classes as inheriting create_message / decode_message"""
+    for cls in (requests.StartMasterRequest, requests.UIDRequest):
+        if cls.create_message is not Request.create_message or cls.decode_message is not Request.decode_message:
+            res.fail("corr", dict(cls=cls.__name__), "inherits Request.create_message/decode_message", "overridden",
+                     "frame-object model: a plain request kind now has its own codec")
+    for cls in (responses.SetEcomaxParameterResponse, responses.SetMixerParameterResponse, responses.EcomaxControlResponse,
+                responses.SetThermostatParameterResponse):
+        if cls.create_message is not Response.create_message or cls.decode_message is not Response.decode_message:
+            res.fail("corr", dict(cls=cls.__name__), "inherits Response.create_message/decode_message", "overridden",
+                     "frame-object model: a plain response kind now has its own codec")
+
+
+def frame_scenarios(res, scenarios):
+    runs = [run_scenario(sc) for sc in scenarios]
+    answers = driver_batch(r[0] for r in runs)
+    for sc, (line, words, got, want), ans in zip(scenarios, runs, answers):
+        res.case(("frame_reuse", json.dumps(sc, sort_keys=True)), True)
+        res.count("reuse:frame:" + sc["cls"])
+        # oracle 1: the frame-object model, step by step.  The model is the statement of what every
+        # step must return (C02.bytes_reflect_last_content, length_consistent, getters_pure,
+        # C03.eq_*): a step that serialises something else is a concrete failing input.
+        model = ans.split(" ") if ans not in ("-", "bad-op") else []
+        if ans == "bad-op":
+            res.fail("corr", sc, "a model answer", dict(line=line), "frame-object driver rejected the operation sequence")
+        elif model != words:
+            k = next((i for i, (a, b) in enumerate(zip(model, words)) if a != b), min(len(model), len(words)))
+            ser = any(w[:2] in ("b:", "l:", "m:") for w in (words[k:k + 1] + model[k:k + 1]))
+            res.fail("spec" if ser else "corr", sc,
+                     dict(step=k, model=model[k] if k < len(model) else None, ops=line.split(" ")[9:], model_trace=model),
+                     dict(step=k, observed=words[k] if k < len(words) else None, observed_trace=words),
+                     "operation %d of a sequence on ONE frame object returns something else than the frame-object model "
+                     "(bytes must reflect the last content set, len() = length field = byte count, getters are pure)" % k)
+        # oracle 2: a fresh frame built from the final content
+        if got != want:
+            res.fail("spec", sc, want, got,
+                     "a frame that was serialised, updated through its setters and serialised again does not carry exactly the "
+                     "fields it was last given (differs from a fresh frame built from them)")
+        elif "bytes" in got and (got["length"] != len(bytes.fromhex(got["bytes"])) or got["header_len"] != got["length"]):
+            res.fail("spec", sc, "length field = total byte count", got, "length field / len() do not equal the number of bytes")
 
 
 def frame_reuse(res, rng, n):
     """n scenarios; returns nothing, records into res"""
-    for _ in range(n):
-        cls = rng.choice(FRAME_CLASSES)
-        hdr = dict(recipient=rng.choice(list(DeviceType)), sender=rng.choice(list(DeviceType)),
-                   econet_type=rng.choice([48, rng.randrange(256)]), econet_version=rng.choice([5, rng.randrange(256)]))
-        steps = []
-        d0 = _rand_data(rng, cls)
-        f = cls(data=dict(d0), **hdr)
-        final = ("data", d0)
-        steps.append(("new", "data"))
-        for _ in range(rng.randint(1, 4)):
-            op = rng.choice(["read", "read", "len", "set_new", "set_inplace", "set_ior", "set_message", "read_data"])
-            steps.append((op,))
-            if op == "read":
-                f.bytes
-            elif op == "len":
-                len(f)
-            elif op == "read_data":
-                f.data
-            elif op == "set_new":
-                d = _rand_data(rng, cls)
-                f.data = dict(d)
-                final = ("data", d)
-            elif op == "set_inplace":
-                d = _rand_data(rng, cls)
-                cur = f.data
-                cur.clear()
-                cur.update(d)
-                f.data = cur
-                final = ("data", d)
-            elif op == "set_ior":
-                d = _rand_data(rng, cls)
-                f.data |= d
-                final = ("data", dict(f.data))
-            elif op == "set_message":
-                m = cls(data=_rand_data(rng, cls), **hdr).message
-                if rng.random() < 0.5:
-                    m = m + bytearray(rng.randrange(256) for _ in range(rng.randint(1, 5)))
-                f.message = bytearray(m)
-                final = ("message", bytes(m))
-        fresh = cls(data=dict(final[1]), **hdr) if final[0] == "data" else cls(message=bytearray(final[1]), **hdr)
-        got, want = _observe(f), _observe(fresh)
-        res.case(("frame_reuse", cls.__name__, tuple(steps), want["bytes"]), True)
-        res.count("reuse:frame:" + cls.__name__)
-        inp = dict(t="frame_reuse", cls=cls.__name__, steps=[list(s) for s in steps], final=[final[0], repr(final[1])],
-                   header={k: int(v) for k, v in hdr.items()})
-        if got != want:
-            res.fail("spec", inp, want, got,
-                     "a frame that was serialised, updated through its setters and serialised again does not carry exactly the "
-                     "fields it was last given (differs from a fresh frame built from them)")
-        elif got["length"] != len(bytes.fromhex(got["bytes"])) or got["header_len"] != got["length"]:
-            res.fail("spec", inp, "length field = total byte count", got, "length field / len() do not equal the number of bytes")
+    check_plain_kinds(res)
+    frame_scenarios(res, [gen_scenario(rng) for _ in range(n)])
 
 
 # ---------------------------------------------------------------- data types -------------
@@ -213,3 +479,146 @@ def datatype_reuse(res, rng, n):
         if got != want:
             res.fail("spec", dict(t="bit_reuse", order="position-then-unpack", byte=byte, index=idx), want, got,
                      "a bit field positioned before it is unpacked does not report the bit at its position / the cursor size")
+
+
+# ---------------------------------------------------------------- data types vs the Lean instance model ----
+# Every operation of a sequence on ONE instance is observed and compared with the instance model of
+# lean/PlumVerif/Model/Types.lean (`Inst.step`, `BitInst.step`, driver op `t.seq`): theorems
+# C19.pack_reflects_last_value / size_is_packed_length / unpack_then_pack / bit_position_unpack_commute
+# speak about exactly these sequences.
+def _kind(cls):
+    import struct  # noqa: F401
+    if issubclass(cls, dt.BuiltInDataType):
+        fmt = cls._struct.format
+        if fmt == "<f":
+            return "bits:4"
+        if fmt == "<d":
+            return "bits:8"
+        return "int:%s%d" % ("i" if fmt[-1].islower() else "u", 8 * cls._struct.size)
+    return {dt.IPv4: "addr:4", dt.IPv6: "addr:16", dt.String: "str", dt.VarString: "var", dt.VarBytes: "var"}[cls]
+
+
+def _vtok(cls, v):
+    """model token of a python value of the class"""
+    import socket
+    import struct
+    if issubclass(cls, dt.BuiltInDataType):
+        fmt = cls._struct.format
+        if fmt in ("<f", "<d"):
+            return str(int.from_bytes(struct.pack(fmt, v), "little"))
+        return str(int(v))
+    if cls is dt.IPv4:
+        return hexs(socket.inet_aton(v))
+    if cls is dt.IPv6:
+        return hexs(socket.inet_pton(socket.AF_INET6, v))
+    if cls is dt.VarBytes:
+        return hexs(v)
+    return hexs(v.encode())
+
+
+def _step_impl(cls, x, tok, arg):
+    """-> (instance, observation token)"""
+    try:
+        if tok == "new":
+            x = cls(arg) if arg is not None else cls()
+            return x, "."
+        if tok == "pack":
+            return x, "b:" + hexs(x.to_bytes())
+        if tok == "unpack":
+            x.unpack(arg)
+            return x, "."
+        if tok == "size":
+            return x, "s:%d" % x.size
+        if tok == "value":
+            return x, "v:" + _vtok(cls, x.value)
+    except Exception:  # noqa: BLE001
+        return x, "!"
+    raise KeyError(tok)
+
+
+def datatype_sequences(res, rng, n):
+    from common import driver_batch
+    reqs, seen = [], []
+    for _ in range(n):
+        cls = rng.choice(DT_CLASSES)
+        kind = _kind(cls)
+        ops = []      # (token, python argument, model token)
+        first = _rand_value(rng, cls) if rng.random() < 0.85 else None
+        if first is not None and kind.startswith("int") and rng.random() < 0.1:
+            size = cls._struct.size
+            first = rng.choice([256 ** size, -(256 ** size) // 2 - 1, 256 ** size + 5])   # not representable: pack must raise
+        ops.append(("new", first, "new" if first is None else "new:" + _vtok(cls, first)))
+        for _ in range(rng.randint(2, 8)):
+            r = rng.random()
+            if r < 0.2:
+                ops.append(("pack", None, "pack"))
+            elif r < 0.35:
+                ops.append(("size", None, "size"))
+            elif r < 0.5:
+                ops.append(("value", None, "value"))
+            elif r < 0.58:
+                w = _rand_value(rng, cls)
+                ops.append(("new", w, "new:" + _vtok(cls, w)))
+            else:
+                w = _rand_value(rng, cls)
+                buf = cls(w).to_bytes() + bytes(rng.randrange(256) for _ in range(rng.randint(0, 4)))
+                q = rng.random()
+                if q < 0.12:      # too short / cut inside the field (the class raises, or -- Var* -- keeps a stale prefix)
+                    buf = buf[: rng.randrange(0, max(1, len(cls(w).to_bytes())))]
+                    if cls in (dt.String, dt.VarString):
+                        buf = bytes(b for b in buf if b < 0x80)   # keep the text <-> bytes mapping exact
+                elif q < 0.2 and kind.startswith(("int", "addr")):
+                    buf = bytes(rng.randrange(256) for _ in range(rng.randint(0, 20)))
+                ops.append(("unpack", buf, "unpack:" + hexs(buf)))
+        x, obs = None, []
+        for tok, arg, _ in ops:
+            x, o = _step_impl(cls, x, tok, arg)
+            obs.append(o)
+        reqs.append("t.seq %s %s" % (kind, " ".join(m for _, _, m in ops)))
+        seen.append((cls.__name__, [m for _, _, m in ops], obs))
+        res.case(("dt_seq", cls.__name__, tuple(m for _, _, m in ops)), True)
+        res.count("sequence:datatype:" + cls.__name__)
+    # bit array instances: construct (with / without value, any index) / unpack / next / reads in any order
+    for _ in range(max(20, n // 8)):
+        toks, obs = [], []
+        x = None
+        for k in range(rng.randint(2, 9)):
+            r = rng.random()
+            try:
+                if k == 0 or r < 0.08:
+                    v = rng.choice([None, None, True, False])
+                    i = rng.randrange(8)
+                    toks.append("new:%s:%d" % ("-" if v is None else int(v), i))
+                    x = dt.BitArray(v, i)
+                    o = "."
+                elif r < 0.35:
+                    buf = bytes(rng.randrange(256) for _ in range(rng.choice([0, 1, 1, 2, 4])))
+                    toks.append("unpack:" + hexs(buf))
+                    x.unpack(buf)
+                    o = "."
+                elif r < 0.6:
+                    i = rng.randrange(8)
+                    toks.append("next:%d" % i)
+                    o = "n:%d" % x.next(i)
+                elif r < 0.75:
+                    toks.append("value")
+                    o = "v:%d" % int(x.value)
+                elif r < 0.88:
+                    toks.append("size")
+                    o = "s:%d" % x.size
+                else:
+                    toks.append("pack")
+                    o = "b:" + hexs(x.to_bytes())
+            except Exception:  # noqa: BLE001
+                o = "!"
+            obs.append(o)
+        reqs.append("t.seq bit " + " ".join(toks))
+        seen.append(("BitArray", toks, obs))
+        res.case(("bit_seq", tuple(toks)), True)
+        res.count("sequence:datatype:BitArray")
+    for (name, toks, obs), ans in zip(seen, driver_batch(reqs)):
+        if ans.split() != obs:
+            model = ans.split()
+            k = next((i for i, (a, b) in enumerate(zip(model, obs)) if a != b), min(len(model), len(obs)))
+            res.fail("corr", dict(t="datatype_sequence", cls=name, ops=toks), dict(model=model, first_difference_at=k), obs,
+                     "instance model and implementation differ on an operation sequence on one instance")
